@@ -280,9 +280,9 @@ func (dec *Decoder) Read(t reflect.Type, tag ...byte) (result interface{}) {
 
 // Reset the value reference and struct type reference.
 func (dec *Decoder) Reset() *Decoder {
-	if !dec.IsSimple() {
-		dec.refer.Reset()
-	}
+	// also in simple mode: a decoder that has just been switched to it still
+	// holds the references of the input it read before
+	dec.refer.Reset()
 	dec.ref = dec.ref[:0]
 	return dec
 }
